@@ -7,12 +7,12 @@ CONSTANTS
   Knobs <- MCKnobs
   Timeouts <- MCTimeouts
   MIds = {1, 2, 3}
-  MVoters = {1, 2, 3}
+  MVoters = {1, 2}
   MLearners = {}
-  PreVoteOn = TRUE
-  CheckQuorumOn = TRUE
-  MaxTerm = 3
-  MaxLog = 2
+  PreVoteOn = FALSE
+  CheckQuorumOn = FALSE
+  MaxTerm = 2
+  MaxLog = 5
   MaxNet = 4
   MaxCrashes = 0
   MaxProposals = 1
@@ -25,15 +25,15 @@ CONSTANTS
   Fine = FALSE
   EagerReady = TRUE
   QuiescentTicks = TRUE
-  MaxLeaderTicks = 1
-  TickNodes = {1, 2, 3}
-  MaxDrops = 2
+  MaxLeaderTicks = 0
+  TickNodes = {1, 2}
+  MaxDrops = 1
   MaxTransfers = 0
   TransferTargets = {}
-  MaxConf = 0
-  ConfMenuIds = {}
+  MaxConf = 2
+  ConfMenuIds = {1, 2, 3, 4, 5, 6, 7, 8, 9}
   MaxReads = 0
-  LazyApply = FALSE
+  LazyApply = TRUE
   AllowCompact = FALSE
   ProposeAnywhere = FALSE
 CONSTRAINT Bound
